@@ -211,7 +211,7 @@ Ltac unlock_ints := repeat match goal with E : ?v = _ |- context[?v] => is_var v
 (* flatten a result to words for comparison with the driver *)
 Definition no_o1 (_:fk) (_:fop1) (z:Z) : Z := 0. Definition no_o2 (_:fk) (_:fop2) (a b:Z) : Z := 0.
 Definition IEEEr := IEEE false no_o1 no_o2.
-Fixpoint flat (v : valO IEEEr) : list Z := match v with VF32 x => [bits_of_b32 x] | VF64 x => [bits_of_b64 x] | VI _ z => [z] | VB b => [if b then 1 else 0] | VT l => flat_map flat l | VOpt None => [0] | VOpt (Some x) => 1 :: flat x | VUnit => [] | VStr _ => [] end.
+Fixpoint flat (v : valO IEEEr) : list Z := match v with VF32 x => [bits_of_b32 x] | VF64 x => [bits_of_b64 x] | VI _ z => [z] | VB b => [if b then 1 else 0] | VT l => flat_map flat l | VOpt None => [0] | VOpt (Some x) => 1 :: flat x | VUnit => [0] | VStr _ => [] end.
 Definition out (r : res (valO IEEEr)) : list Z := match r with Ok v => 0 :: flat v | Panic => [1] | UB _ => [3] | OutOfFuel => [4] | Stuck _ => [2] end.
 Definition vf32 (w:Z) : valO IEEEr := @VF32 _ _ (ofb32 w).
 Definition vf64 (w:Z) : valO IEEEr := @VF64 _ _ (ofb64 w).
